@@ -13,12 +13,15 @@ pub mod c09;
 pub mod c10;
 pub mod c11;
 pub mod c12;
+pub mod c13;
+pub mod c14;
+pub mod ns_model;
 pub mod c15;
 pub mod c16;
 pub mod c19;
 pub mod common;
 
-pub const ALL: &[&str] = &["C01", "C02", "C03", "C04", "C05", "C06", "C07", "C08", "C09", "C10", "C11", "C12", "C15", "C16", "C19"];
+pub const ALL: &[&str] = &["C01", "C02", "C03", "C04", "C05", "C06", "C07", "C08", "C09", "C10", "C11", "C12", "C13", "C14", "C15", "C16", "C19"];
 
 pub fn run(prop: &str, ctx: &mut Ctx) -> bool {
     match prop {
@@ -34,6 +37,8 @@ pub fn run(prop: &str, ctx: &mut Ctx) -> bool {
         "C10" => c10::run(ctx),
         "C11" => c11::run(ctx),
         "C12" => c12::run(ctx),
+        "C13" => c13::run(ctx),
+        "C14" => c14::run(ctx),
         "C15" => c15::run(ctx),
         "C16" => c16::run(ctx),
         "C19" => c19::run(ctx),
@@ -56,6 +61,8 @@ pub fn replay(prop: &str, kind: &str, case: &J, rec: &mut Rec) -> Verdict {
         "C10" => c10::replay(kind, case, rec),
         "C11" => c11::replay(kind, case, rec),
         "C12" => c12::replay(kind, case, rec),
+        "C13" => c13::replay(kind, case, rec),
+        "C14" => c14::replay(kind, case, rec),
         "C15" => c15::replay(kind, case, rec),
         "C16" => c16::replay(kind, case, rec),
         "C19" => c19::replay(kind, case, rec),
@@ -68,6 +75,7 @@ pub fn probe(args: &[String]) -> i32 {
     match args.first().map(|s| s.as_str()) {
         Some("ladder") => c03::probe_ladder(&args[1..]),
         Some("filter-ladder") => c09::probe_ladder(&args[1..]),
+        Some("c14-schedule") => c14::probe_schedule(&args[1..]),
         _ => {
             eprintln!("unknown probe {args:?}");
             2
